@@ -47,6 +47,7 @@ pub fn groups_for(prop: Prop) -> &'static [&'static str] {
         Prop::C10 => &["general"],
         Prop::C17 => &["general", "empty"],
         Prop::C18 => &["general"],
+        Prop::C04 => &["general", "fixed", "plain"],
         _ => &["general", "fixed"],
     }
 }
